@@ -1,7 +1,7 @@
 //! Delta debugging of a failing scenario (DESIGN 2.5): a candidate is accepted only if the same
 //! invariant of the same property still fails (same class).
 use crate::oracle::{Exec, Stats, Verdict};
-use crate::scenario::{CompileState, Scenario};
+use simcommon::scenario::{CompileState, Scenario};
 
 pub type CheckFn = fn(&str, &Scenario, &mut Exec) -> (Verdict, Option<String>);
 
